@@ -167,7 +167,11 @@ def _alarm(signum, frame):
     raise CaseTimeout()
 
 
+CASE_LABELS = set()  # labels contributed by shared machinery (e.g. how a scratch project invoked gwf) during one case
+
+
 def _run_one(mod, known, stats, case):
+    CASE_LABELS.clear()
     # watchdog: a single case that does not come back is a hang of the code under test
     limit = float(getattr(mod, "CASE_TIMEOUT_S", 90))
     use_alarm = threading.current_thread() is threading.main_thread()
@@ -200,6 +204,8 @@ def _run_one(mod, known, stats, case):
     if res is None or TIMED_OUT[0]:
         res = CaseResult([Violation({"kind": "hang"}, f"case did not finish within {limit:.0f}s "
                                     "(a command or the worker pool's event loop never came back)")], False, ["hang"])
+    if CASE_LABELS:
+        res.labels = sorted(set(res.labels) | CASE_LABELS)
     stats.record(case, res)
     fresh = _classify(mod, known, stats, case, res)
     if fresh:
